@@ -139,3 +139,156 @@ Example ref_tests_example :
   ref_tests ref_init [s2l "TAP version 13"; s2l "ok 1 # SKIP x"; s2l "  ---"; s2l "  ok 2"; s2l "  ..."; s2l "1..1"]
   = [(1, [], SKIP, Some (s2l "x"))].
 Proof. vm_compute. reflexivity. Qed.
+
+(* ------------------------------------------------------------------ *)
+(* Which lines are looked at as TAP: the fault theorems for ALL streams *)
+
+(* the line is part of a YAML block (opens, continues or closes one) *)
+Definition swallowed (r : ref) (line : str) : bool :=
+  match r_mode r with
+  | MMain => false
+  | MAfterTest => (13 <=? r_version r) && (match yaml_start line with Some _ => true | None => false end)
+  | MYaml ind => yaml_end line || prefixb ind line
+  end.
+
+Fixpoint ref_run (r : ref) (lines : list str) : ref :=
+  match lines with [] => r | l :: rest => ref_run (fst (ref_step r l)) rest end.
+
+Lemma sim_run_state lines : forall r s s' e,
+  sim r s -> run_lines s lines = Ok (s', e) -> sim (ref_run r lines) s'.
+Proof.
+  induction lines as [|l lines IH]; intros r s s' e S H; simpl in H.
+  - inversion H; subst. exact S.
+  - destruct (parse_line s l) as [[s1 e1]|c] eqn:H1; cbn [bind] in H; [|discriminate].
+    destruct (run_lines s1 lines) as [[s2 e2]|c] eqn:H2; cbn [bind] in H; [|discriminate].
+    inversion H; subst. destruct (sim_step _ _ _ _ _ S H1) as [S1 _].
+    simpl. eapply IH; eassumption.
+Qed.
+
+(* a line that is not part of a YAML block goes through main_line *)
+Lemma visible_step r s x s' e :
+  sim r s -> swallowed r x = false -> parse_line s x = Ok (s', e) ->
+  exists s1 pre e', ctr s1 = ctr s /\ lineno s1 = lineno s + 1 /\
+                    main_line s1 x = Ok (s', e') /\ e = pre ++ e'.
+Proof.
+  intros [Hv [Hn [Hl Hm]]] Hsw H. apply parse_line_spec in H.
+  pose proof (pre_line_facts (set_lineno s (lineno s + 1)) x) as F.
+  destruct H as [[Hp ->]|[s1 [pre [e' [Hp [Hmain ->]]]]]].
+  - exfalso. unfold swallowed in Hsw. unfold pre_line in Hp. simpl st in Hp. simpl version in Hp.
+    simpl yaml_indent in Hp. rewrite Hv in Hsw.
+    destruct (r_mode r) as [| |ind].
+    + rewrite Hm in Hp. discriminate.
+    + rewrite Hm in Hp. destruct (13 <=? version s); [|discriminate].
+      destruct (yaml_start x); discriminate.
+    + destruct Hm as [Hm Hi]. rewrite Hm, Hi in Hp.
+      destruct (yaml_end x); [discriminate|]. destruct (prefixb ind x); discriminate.
+  - rewrite Hp in F. destruct F as [C [L _]]. exists s1, pre, e'. repeat split; auto.
+Qed.
+
+Lemma run_lines_frame lines : forall s s' e,
+  run_lines s lines = Ok (s', e) ->
+  lineno s' = lineno s + N.of_nat (length lines) /\ (cur_plan s <> None -> cur_plan s' = cur_plan s).
+Proof.
+  induction lines as [|l lines IH]; intros s s' e H; simpl in H.
+  - inversion H; subst. simpl. split; [lia|auto].
+  - destruct (parse_line s l) as [[s1 e1]|c] eqn:H1; cbn [bind] in H; [|discriminate].
+    destruct (run_lines s1 lines) as [[s2 e2]|c] eqn:H2; cbn [bind] in H; [|discriminate].
+    inversion H; subst. destruct (IH _ _ _ H2) as [L2 P2].
+    assert (S1 : lineno s1 = lineno s + 1 /\ (cur_plan s <> None -> cur_plan s1 = cur_plan s)).
+    { apply parse_line_spec in H1.
+      pose proof (pre_line_facts (set_lineno s (lineno s + 1)) l) as F.
+      destruct H1 as [[Hp ->]|[s3 [pre [e' [Hp [Hm ->]]]]]]; rewrite Hp in F.
+      - destruct F as [C [L _]]. unfold ctr in C. inversion C. split; [exact L|]. intros _. simpl in *. congruence.
+      - destruct F as [C [L _]]. unfold ctr in C. inversion C.
+        destruct (main_line_frame _ _ _ _ Hm) as [L3 [_ P3]]. split; [simpl in *; congruence|].
+        intro Hp0. rewrite P3; simpl in *; congruence. }
+    destruct S1 as [L1 P1]. split.
+    + rewrite L2, L1. simpl length. lia.
+    + intro Hp. rewrite P2; rewrite P1; auto.
+Qed.
+
+(* the line x of ANY stream l1 ++ x :: l2, when it is not part of a YAML block *)
+Lemma visible_focus l1 x l2 s' e :
+  run_lines init (l1 ++ x :: l2) = Ok (s', e) -> swallowed (ref_run ref_init l1) x = false ->
+  exists sa ea s1 pre sb eb ec,
+    run_lines init l1 = Ok (sa, ea) /\ ctr s1 = ctr sa /\
+    lineno s1 = N.of_nat (length l1) + 1 /\
+    main_line s1 x = Ok (sb, eb) /\ run_lines sb l2 = Ok (s', ec) /\ e = ea ++ (pre ++ eb) ++ ec.
+Proof.
+  intros H Hsw. apply run_lines_app in H. destruct H as [sa [ea [e2 [Ra [Rb ->]]]]].
+  assert (S0 : sim ref_init init) by (unfold sim; simpl; auto).
+  pose proof (sim_run_state _ _ _ _ _ S0 Ra) as Sa.
+  simpl in Rb. destruct (parse_line sa x) as [[sb eb]|c] eqn:H1; cbn [bind] in Rb; [|discriminate].
+  destruct (run_lines sb l2) as [[sc ec]|c] eqn:H2; cbn [bind] in Rb; [|discriminate].
+  inversion Rb; subst.
+  destruct (visible_step _ _ _ _ _ Sa Hsw H1) as [s1 [pre [e' [C [L [Hm ->]]]]]].
+  destruct (run_lines_frame _ _ _ _ Ra) as [La _]. simpl in La.
+  exists sa, ea, s1, pre, sb, e', ec. repeat split; auto. rewrite L, La. reflexivity.
+Qed.
+
+(* Bail out! produces a bail-out event: every stream, every Bail out! line outside YAML blocks *)
+Theorem bail_out_reported_all l1 x l2 m evs :
+  swallowed (ref_run ref_init l1) x = false -> line_class x = Some (LBail m) ->
+  parse (l1 ++ x :: l2) = Ok evs -> In (EBail m) evs.
+Proof.
+  intros Hsw Hc H. apply parse_run in H. destruct H as [s [e [e2 [R ->]]]].
+  destruct (visible_focus _ _ _ _ _ R Hsw) as [sa [ea [s1 [pre [sb [eb [ec [_ [_ [_ [Hm [_ ->]]]]]]]]]]]].
+  apply main_line_spec in Hm. rewrite Hc in Hm. destruct Hm as [_ ->].
+  apply in_or_app. left. apply in_or_app. right. apply in_or_app. left. apply in_or_app. right. left. reflexivity.
+Qed.
+
+(* a second plan line produces an error event: every stream *)
+Theorem second_plan_reported_all l1 x l2 y l3 d1 r1 d2 r2 evs :
+  swallowed (ref_run ref_init l1) x = false ->
+  swallowed (ref_run ref_init (l1 ++ x :: l2)) y = false ->
+  line_class x = Some (LPlan d1 r1) -> line_class y = Some (LPlan d2 r2) ->
+  parse (l1 ++ x :: l2 ++ y :: l3) = Ok evs -> In (EError KPlan2) evs.
+Proof.
+  intros Hsx Hsy Hx Hy H. apply parse_run in H. destruct H as [s [e [e2 [R ->]]]].
+  (* focus on y first: the whole prefix l1 ++ x :: l2 runs to some state *)
+  assert (E : l1 ++ x :: l2 ++ y :: l3 = (l1 ++ x :: l2) ++ y :: l3) by (rewrite <- app_assoc; reflexivity).
+  rewrite E in R.
+  destruct (visible_focus _ _ _ _ _ R Hsy) as [sa [ea [s1 [pre [sb [eb [ec [Ra [C [_ [Hm [_ ->]]]]]]]]]]]].
+  (* inside the prefix, x is looked at and leaves a plan behind *)
+  destruct (visible_focus _ _ _ _ _ Ra Hsx) as [sa' [ea' [s1' [pre' [sb' [eb' [ec' [_ [_ [_ [Hm' [Rc _]]]]]]]]]]]].
+  assert (Hpb : cur_plan sb' <> None).
+  { apply main_line_spec in Hm'. rewrite Hx in Hm'. destruct (cur_plan s1') eqn:E1.
+    - destruct Hm' as [-> _]. congruence.
+    - destruct Hm' as [p [errs [-> _]]]. simpl. discriminate. }
+  destruct (run_lines_frame _ _ _ _ Rc) as [_ Pc].
+  assert (Hpa : cur_plan s1 <> None).
+  { unfold ctr in C. inversion C as [[C1 C2 C3 C4 C5 C6 C7]]. rewrite C3, (Pc Hpb). exact Hpb. }
+  apply main_line_spec in Hm. rewrite Hy in Hm. destruct (cur_plan s1); [|congruence].
+  destruct Hm as [_ ->].
+  apply in_or_app. left. apply in_or_app. right. apply in_or_app. left. apply in_or_app. right. left. reflexivity.
+Qed.
+
+(* a version line anywhere but on the first line produces an error event (every stream); on the
+   first line it is accepted from 13 on *)
+Theorem version_line_all l1 x l2 ds evs :
+  swallowed (ref_run ref_init l1) x = false -> line_class x = Some (LVersion ds) ->
+  parse (l1 ++ x :: l2) = Ok evs ->
+  (l1 <> [] -> In (EError KVerPos) evs) /\
+  (l1 = [] -> digits_val ds < 13 -> In (EError KVerLow) evs) /\
+  (l1 = [] -> 13 <= digits_val ds -> In (EVersion (digits_val ds)) evs).
+Proof.
+  intros Hsw Hc H. apply parse_run in H. destruct H as [s [e [e2 [R ->]]]].
+  destruct (visible_focus _ _ _ _ _ R Hsw) as [sa [ea [s1 [pre [sb [eb [ec [_ [_ [L [Hm [_ ->]]]]]]]]]]]].
+  apply main_line_spec in Hm. rewrite Hc in Hm.
+  assert (IN : forall z, In z eb -> In z ((ea ++ (pre ++ eb) ++ ec) ++ e2)).
+  { intros z Hz. apply in_or_app. left. apply in_or_app. right. apply in_or_app. left.
+    apply in_or_app. right. exact Hz. }
+  destruct (N.eqb_spec (lineno s1) 1) as [E|E]; simpl in Hm.
+  - assert (l1 = []) by (destruct l1; [reflexivity|simpl length in L; lia]).
+    destruct Hm as [_ [_ ->]]. split; [congruence|].
+    destruct (N.ltb_spec (digits_val ds) 13); split; intros; try lia; apply IN; left; reflexivity.
+  - destruct Hm as [_ ->]. assert (l1 <> []) by (intros ->; simpl in L; lia).
+    split; [intros _; apply IN; left; reflexivity|]. split; congruence.
+Qed.
+
+(* the guard is about the reference reading only: a Bail out! inside a YAML block is swallowed,
+   the same line after the block is not *)
+Example swallowed_example :
+  swallowed (ref_run ref_init [s2l "TAP version 13"; s2l "ok 1"; s2l "  ---"]) (s2l "  Bail out!") = true /\
+  swallowed (ref_run ref_init [s2l "TAP version 13"; s2l "ok 1"; s2l "  ---"; s2l "  ..."]) (s2l "Bail out!") = false.
+Proof. split; vm_compute; reflexivity. Qed.
